@@ -169,6 +169,9 @@ func genLeaf(t *rapid.T, i int) leaf {
 		l.Kind, l.Type, l.Tag = "func", reflect.SliceOf(tIComp), `func:"Comp,returns=a"`
 	case 4:
 		l.Kind, l.Type, l.Tag, l.Want = "value", tString, `value:"lit"`, "lit"
+		if rapid.IntRange(0, 3).Draw(t, "dash") == 0 {
+			l.Tag, l.Want = `value:"-"`, "-"
+		}
 	case 5:
 		l.Kind, l.Type, l.Tag, l.Want = "value", tInt, `value:"42"`, 42
 	case 6:
@@ -181,7 +184,7 @@ func genLeaf(t *rapid.T, i int) leaf {
 		l.Kind, l.Type, l.Tag = "logger", tLogger, `logger:""`
 	case 10, 11:
 		l.Kind, l.Type = "custom", tString
-		l.CVal = rapid.SampledFrom([]string{"v1", "v2", "a.b", ""}).Draw(t, "cval")
+		l.CVal = rapid.SampledFrom([]string{"v1", "v2", "a.b", "", "-"}).Draw(t, "cval") // "-" is a value like any other
 		items := rapid.SampledFrom([]string{"", ",arg=x y", ",arg=[p,q] z,flag", ",required=false"}).Draw(t, "cargs")
 		l.Tag = "mytag:" + strconv.Quote(l.CVal+items)
 		switch rapid.IntRange(0, 3).Draw(t, "altmode") {
@@ -803,4 +806,48 @@ func TestStaticEmbeddedPrefixed(t *testing.T) {
 		}
 		kit.Rec.Case(fmt.Sprintf("embedded struct with a Prefix() of its own, entry=%v", withEntry), true, "embedded-configuration-properties")
 	}
+}
+
+// ---- a middle level that consists of embedded helper structs only (all with unexported type names) ---------------
+
+type depsH struct {
+	Dep zoo.IAll `wire:"n1"`
+	Cus string   `mytag:"vh,arg=x y"`
+}
+type confH struct {
+	Val string `value:"lit"`
+}
+type midOnlyEmbedded struct {
+	depsH
+	confH
+}
+type DeepHelpers struct {
+	midOnlyEmbedded
+	Own string `value:"own"`
+}
+
+func TestStaticHelperLevels(t *testing.T) {
+	kit.Rec.Rule(rule)
+	d := &DeepHelpers{}
+	pp := &CustomPP{}
+	comps := append(providers(), d, pp, newScan())
+	out := kit.RunApp(app.SetComponents(comps...), app.SetConfigLoader(loader.NewRawLoader([]byte(cfg))))
+	if !out.OK() {
+		t.Fatalf("C11: start failed: %v", out)
+	}
+	if d.Dep == nil || d.Val != "lit" || d.Cus != "custom:vh" || d.Own != "own" {
+		kit.DumpReplay("c11-helper-levels", map[string]any{"component": fmt.Sprintf("%+v", *d)})
+		t.Fatalf("C11: tagged fields two levels down, below a level that only embeds helper structs (unexported type names), are not processed as when declared directly: %+v", *d)
+	}
+	n := 0
+	for _, r := range pp.seen {
+		if r.Field == "Cus" && r.Val == "vh" && r.Args == "Arg=x y" {
+			n++
+		}
+	}
+	if n != 1 {
+		t.Fatalf("C11: the custom tag processor received the deep field %d times (records %v)", n, pp.seen)
+	}
+	kit.Rec.Case("middle level of embedded helper structs only", true, "helper-levels")
+	kit.Rec.Case("middle level of embedded helper structs only (custom tag delivered)", true, "helper-levels")
 }
